@@ -356,6 +356,11 @@ def body_quantis(rec, c):
             membership(rec, "quantis:[0-]", n0, ENS_MINUS, c["maxlength"], info)
             membership(rec, "quantis:[0+]", n1, ENS_PLUS, c["maxlength"], info)
             rec.check(n0[-2] == r1 and n1[0] == r0, "quantis:junction-frames", f"{n0} {n1} r0={r0} r1={r1}")
+            # the frames of a new path carry the potential energy of the engine of the ensemble they now belong to: the next
+            # swap's acceptance rule reads V_0 and V_1 of the junction frames from there
+            for tag, pth, k in (("[0-]", paths[0], c["k0"]), ("[0+]", paths[1], c["k1"])):
+                bad = [(i, pp.order[0], pp.vpot) for i, pp in enumerate(pth.phasepoints) if pp.vpot is None or abs(pp.vpot - V(k, pp.order[0])) > 1e-9 * max(1.0, abs(V(k, pp.order[0])))]
+                rec.check(not bad, f"quantis:{tag}:frame-carries-the-energy-of-the-other-engine", f"(frame, x, vpot) {bad[:3]} with k={k}; {info}")
         a0, a1 = mk.snap_path(old0), mk.snap_path(old1)
         rec.check(a0 == b0 and a1 == b1, "quantis:swap-changed-old-paths", f"status {status}")
     finally:
